@@ -1,7 +1,7 @@
 """Active-object system correspondence (timed sources, cancel_event(s), stop): Lean `Conc.AO` ↔ real
 `ActiveObject` under dsched with a virtual clock; implementation-side oracles for C10, C11, C12, C31."""
 import os, sys, json, random, uuid as _uuid
-import leanrun, dsched, conc_corr
+import leanrun, dsched, conc_corr, charts
 from charts import mhsm, Event, signals, return_status
 import miros.activeobject as mao
 
@@ -160,9 +160,8 @@ def run_real(sc, chooser, max_steps=2500):
                         _, kind, sig, period, total, deferred = c
                         e = Event(signal="E%d" % sig, payload=500000 + len(ids))
                         try:
-                            f = ao.post_fifo if kind == 0 else ao.post_lifo
                             tracked_before = len(ao.posted_events_queue)
-                            tid = f(e, period=period, times=total, deferred=bool(deferred))
+                            tid = charts.timed_post(ao, "F" if kind == 0 else "L", e, period, total, bool(deferred), len(ids) + sig + period)
                             ids.append(tid)
                             results.append(len(ids))
                             sched.trace[mark][2] = "ok"
@@ -204,7 +203,7 @@ def run_real(sc, chooser, max_steps=2500):
                 def poster(i=i, p=p):
                     for j, (k, sg) in enumerate(p):
                         e = Event(signal="E%d" % sg, payload=1000 * i + j)
-                        (ao.post_fifo if k == "F" else ao.post_lifo)(e)
+                        charts.plain_post(ao, k, e, i + 2 * j)
                 sched.spawn(poster, (), name="P%d" % i)
             sched.spawn(client, (), name="K0")
             ar.outcome = sched.run(stop_when=stop_when)
@@ -1050,7 +1049,8 @@ def run_track(spec, chooser, max_steps=40000):
                 ao.posted_events_lock = dsched.DLock()
                 sched.name_obj(ao.posted_events_lock, "trk")
             codes = [mao.ActiveObject.cancel_event.__code__, mao.ActiveObject.cancel_events.__code__,
-                     mao.ActiveObject._ActiveObject__post_event.__code__]
+                     mao.ActiveObject._ActiveObject__post_event.__code__, mao.ActiveObject._ActiveObject__start.__code__]
+            log_ = []
             sched.tracer = dsched.trace_opcodes(codes)
             mine = [[] for _ in spec["progs"]]
 
@@ -1064,6 +1064,8 @@ def run_track(spec, chooser, max_steps=40000):
                                 mine[i].append(None)
                         elif kind == "cancelName":
                             ao.cancel_events(Event(signal="N%d" % arg))
+                        elif kind == "start":
+                            ao.start_at(_basic_chart(log_))         # the object is started while the others arm / cancel
                         else:
                             the_id = mine[i][arg] if arg < len(mine[i]) else None
                             ao.cancel_event(_u.UUID(str(the_id)) if isinstance(the_id, _u.UUID) else (the_id if the_id is not None else _u.uuid4()))
@@ -1087,6 +1089,56 @@ def run_track(spec, chooser, max_steps=40000):
             if leaked:
                 res["errors"].append("leaked: %s" % leaked)
     return res
+
+
+def explore_start_vs_arm(run, focus, n):
+    """oracle-only: one thread starts the object (start_at) while another arms its first timed source, every bytecode of
+    __start / __post_event a scheduling point: afterwards the source is tracked (cancel and stop() can reach it)"""
+    import uuid as _u
+    rng = run.rng
+    for _ in range(n):
+        seed = rng.randrange(1 << 30)
+        r2 = random.Random(seed)
+        chooser = dsched.pct_chooser(r2, depth=r2.randint(1, 3), est_len=600) if r2.random() < 0.7 else dsched.random_chooser(r2)
+        res = {"errors": []}
+        saved_pp = mao.pp
+        mao.pp = lambda x: None
+        with dsched.Installed():
+            sched = dsched.Sched(chooser, max_steps=20000, yield_filter=lambda l: l == "op" or yield_filter(l))
+            dsched.Sched.current = sched
+            try:
+                ao = mao.ActiveObject(name="C")
+                sched.tracer = dsched.trace_opcodes([mao.ActiveObject._ActiveObject__post_event.__code__, mao.ActiveObject._ActiveObject__start.__code__])
+                got = {}
+                log_ = []
+
+                def starter():
+                    ao.start_at(_basic_chart(log_))
+
+                def armer():
+                    got["id"] = ao.post_fifo(Event(signal="N1"), period=1000, times=0, deferred=True)
+                sched.spawn(starter, (), name="T0")
+                sched.spawn(armer, (), name="T1")
+                sched.run(stop_when=lambda s: all(t.finished for t in s.threads if t.name in ("T0", "T1")))
+                for t in sched.threads:
+                    if t.error is not None:
+                        res["errors"].append("%s: %s: %s" % (t.name, type(t.error).__name__, t.error))
+                res["done"] = all(t.finished for t in sched.threads if t.name in ("T0", "T1"))
+                res["tracked"] = [str(r.uuid) for r in ao.posted_events_queue]
+                res["id"] = str(got.get("id"))
+                res["order"] = [e[0] for e in sched.trace]
+            finally:
+                sched.shutdown()
+                mao.pp = saved_pp
+        cj = {"what": "start-vs-arm", "seed": seed, "schedule": res.get("order", [])}
+        run.count("start_at racing the first timed post (bytecode level)")
+        run.traces_validated += 1
+        if res["errors"]:
+            run.violate("%s/thread-error" % focus, "start_at racing a timed post: %s" % res["errors"][:2], cj)
+        elif res.get("done") and res["id"] not in res["tracked"]:
+            run.violate("%s/live-source-not-tracked" % focus, "one thread called start_at while another posted the object's first timed event: the "
+                        "source %s runs but posted_events_queue holds %s, so no cancel or stop() can reach it" % (res["id"], res["tracked"]), cj)
+        run.case(cj, nontrivial=True)
 
 
 def explore_track(run, focus, n):
@@ -1132,11 +1184,13 @@ def explore_track(run, focus, n):
         live_untracked = []
         # sources in creation order = timer threads in creation order; their ids in the order the arms were accepted
         acq = res["acquisitions"]
-        if len(acq) == sum(len(p) for p in progs):
+        if len(acq) == sum(1 for p in progs for c in p if c[0] != "start"):
             pos = [0] * len(progs)
             arm_pos = [0] * len(progs)
             calls, gid, ids_in_order = [], {}, []
             for i in acq:
+                while progs[i][pos[i]][0] == "start":
+                    pos[i] += 1                     # starting the object does not touch the tracked list
                 kind, arg = progs[i][pos[i]]
                 pos[i] += 1
                 if kind == "arm":
@@ -1201,6 +1255,8 @@ def run_subclass_capacity(spec, chooser, max_steps=6000):
             class Roomy(mao.ActiveObject):
                 QUEUE_SIZE = spec["base"] + spec["extra"]
             ao = Roomy(name="C")
+            if spec.get("live"):
+                ao.live_spy, ao.live_trace = bool(spec["live"] & 1), bool(spec["live"] & 2)     # live output switched on: nothing else changes
             got = []
 
             def s1(chart, e):
@@ -1211,7 +1267,8 @@ def run_subclass_capacity(spec, chooser, max_steps=6000):
                     return return_status.HANDLED
                 chart.temp.fun = chart.top
                 return return_status.SUPER
-            ao.start_at(s1)
+            if spec.get("started", True):
+                ao.start_at(s1)
 
             def client():
                 sched.yield_point("call.begin")
@@ -1225,6 +1282,16 @@ def run_subclass_capacity(spec, chooser, max_steps=6000):
                     res["extra"] = "accepted"
                 except mao.ActiveObjectOutOfPostedEventResources:
                     res["extra"] = "rejected"
+                except Exception as ex:  # noqa
+                    res["extra"] = "raised %s: %s" % (type(ex).__name__, ex)
+                if not spec.get("started", True):
+                    # an object that was never started: nothing is dispatched; the rejected source must not have posted, the others are cancelled
+                    mao.time.sleep(2)
+                    res["extra_fired"] = any(e.signal_name == "TX" for e in ao.locking_deque.deque.raw())
+                    for k in range(cap):
+                        ao.cancel_events(Event(signal="T%d" % k))
+                    res["unstarted_done"] = True
+                    return
                 mao.time.sleep(2)
                 res["extra_fired"] = "TX" in got
                 # cancel the OLDEST source by an equal id, the second oldest by name
@@ -1264,15 +1331,23 @@ def explore_subclass_capacity(run, focus, n):
     rng = run.rng
     for _ in range(n):
         # (extra <= 2: the cap - 2 sources left after the cancels may all fire at one instant into an event queue of `base` places)
-        spec = {"base": rng.randint(1, 4), "extra": rng.randint(1, 2), "period": rng.choice([3, 5])}
+        spec = {"base": rng.randint(1, 4), "extra": rng.randint(1, 2), "period": rng.choice([3, 5]), "started": rng.random() < 0.65,
+                "live": rng.choice([0, 0, 1, 2, 3])}
         seed = rng.randrange(1 << 30)
         res = run_subclass_capacity(spec, dsched.random_chooser(random.Random(seed), clock_bias=0.0))
         cj = {"what": "subclass-capacity", "spec": spec, "seed": seed, "schedule": [e[0] for e in res.get("trace", [])]}
         cap = spec["base"] + spec["extra"]
-        run.count("subclass with QUEUE_SIZE above the base class's")
+        run.count("subclass with QUEUE_SIZE above the base class's" + ("" if spec["started"] else " (object never started)"))
         run.traces_validated += 1
         if res["errors"]:
             run.violate("%s/thread-error" % focus, "a thread died: %s" % res["errors"][:2], cj)
+        elif res.get("unstarted_done"):
+            if res["tracked_full"] != cap:
+                run.violate("%s/accepted-source-not-tracked" % focus, "a never-started object with QUEUE_SIZE = %d accepted %d timed sources and tracks "
+                            "%d of them" % (cap, cap, res["tracked_full"]), cj)
+            if res["extra"] != "rejected" or res["extra_fired"]:
+                run.violate("%s/post-beyond-capacity" % focus, "a never-started object tracking its QUEUE_SIZE = %d sources: one more timed post was %s%s"
+                            % (cap, res["extra"], " and its event was posted" if res["extra_fired"] else ""), cj)
         elif res.get("outcome") == "bound" or "after_stop" not in res:
             pass
         else:
